@@ -371,10 +371,14 @@ def _sign_eval(e, env):
                     x.value, (int, float)) and x.value == 0:
                 return 0
             if isinstance(x, ast.Name) and x.id in env:
-                return SIGN_NUM[env[x.id]]
+                # an array with entries of both signs has no single sign
+                return SIGN_NUM.get(env[x.id])
             if isinstance(x, ast.Call) and U(x.func) in (
                     'np.min', 'np.max', 'np.amin', 'np.amax', 'min',
                     'max') and len(x.args) == 1:
+                a0 = x.args[0]
+                if isinstance(a0, ast.Name) and env.get(a0.id) == 'mixed':
+                    return -1 if 'min' in U(x.func) else 1
                 # arrays carry one sign for all elements
                 return val(x.args[0])
             return None
